@@ -3,6 +3,11 @@
 //! Values travel as neutral serde-data-model trees (see wire/tree.rs for the token syntax).  Ops (inputs only):
 //!   hdr <Kind>                 -> hex of RecordHeader{kind}.try_serialize()
 //!   hdrdec <hex>               -> ok <Kind> | err              (RecordHeader::from_record, compared exactly)
+//!   ischunk <hex>              -> ok true|ok false|err    (RecordHeader::is_record_of_type_chunk, compared exactly)
+//!   ischunksweep <b0 hex>      -> the same over every (b1,b2), run-length coded: t|f|- (exact, exhaustive)
+//!   hdrtry <hex>               -> ok <Kind> | err              (RecordHeader::try_deserialize on the whole slice: 1-arrays with the tag
+//!                                 in ANY integer width, 1-byte bins, the 3-byte map; longer maps are not generated)
+//!   hdrtrysweep2               -> try_deserialize over all 65536 two-byte slices, run-length coded (exact)
 //!   hdrsweep <b0 hex>          -> every (b1,b2) with from_record([b0,b1,b2,..]) accepted, run-length coded (exact, exhaustive)
 //!   enc <Type> <tree>          -> hex of rmp_serde::to_vec(value)            (value rebuilt from the tree)
 //!   rec <Kind> <Type> <tree>   -> hex of try_serialize_record(value, kind)
@@ -448,6 +453,52 @@ fn exec(line: &str, tys: &[Ty]) -> String {
                     Err(_) => "err".into(),
                 })
             }
+            "ischunk" => {
+                let b = unhex(ws[1])?;
+                Some(match RecordHeader::is_record_of_type_chunk(&record(b)) {
+                    Ok(x) => format!("ok {x}"),
+                    Err(_) => "err".into(),
+                })
+            }
+            "ischunksweep" => {
+                let b0 = u8::from_str_radix(ws[1], 16).ok()?;
+                let mut parts = vec![];
+                for b1 in 0..=255u8 {
+                    let row: Vec<String> = (0..=255u8)
+                        .map(|b2| match RecordHeader::is_record_of_type_chunk(&record(vec![b0, b1, b2, 0xc1])) {
+                            Ok(true) => "t".into(),
+                            Ok(false) => "f".into(),
+                            Err(_) => "-".into(),
+                        })
+                        .collect();
+                    if row.iter().any(|x| x != "-") {
+                        parts.push(format!("{b1:02x}:{}", rle(&row)));
+                    }
+                }
+                Some(if parts.is_empty() { "none".into() } else { parts.join(" ") })
+            }
+            "hdrtry" => {
+                let b = unhex(ws[1])?;
+                Some(match RecordHeader::try_deserialize(&b) {
+                    Ok(h) => format!("ok {}", kind_name(h.kind)),
+                    Err(_) => "err".into(),
+                })
+            }
+            "hdrtrysweep2" => {
+                let mut parts = vec![];
+                for b0 in 0..=255u8 {
+                    let row: Vec<String> = (0..=255u8)
+                        .map(|b1| match RecordHeader::try_deserialize(&[b0, b1]) {
+                            Ok(h) => kind_name(h.kind),
+                            Err(_) => "-".into(),
+                        })
+                        .collect();
+                    if row.iter().any(|x| x != "-") {
+                        parts.push(format!("{b0:02x}:{}", rle(&row)));
+                    }
+                }
+                Some(if parts.is_empty() { "none".into() } else { parts.join(" ") })
+            }
             "hdrsweep" => {
                 let b0 = u8::from_str_radix(ws[1], 16).ok()?;
                 let mut parts = vec![];
@@ -581,6 +632,38 @@ fn oracle(line: &str, input: &str, res: &str, out: &mut Out, tys: &[Ty]) {
                 out.oracle_fail("tag-fixed-and-two-bytes", input, "record does not start with the 2-byte header");
             }
         }
+        "ischunk" => {
+            // the wrapper may say Ok(_) only where the header decoder accepts, and then `true` exactly for the Chunk kind;
+            // arbitrary / truncated / unknown-kind bytes are an error, not "not a chunk"
+            let hd = exec(&format!("hdrdec {}", ws[1]), tys);
+            let want = match hd.strip_prefix("ok ") {
+                Some(k) => format!("ok {}", k == "Chunk"),
+                None => "err".to_string(),
+            };
+            if res != want {
+                out.oracle_fail("chunk-test-errs-exactly-when-header-decoder-errs", input, &format!("is_record_of_type_chunk = `{res}` but from_record = `{hd}`"));
+            }
+        }
+        "ischunksweep" => {
+            // find the first window on which the wrapper and the decoder disagree and report it as a concrete input
+            if let Ok(b0) = u8::from_str_radix(ws[1], 16) {
+                'outer: for b1 in 0..=255u8 {
+                    for b2 in 0..=255u8 {
+                        let r = record(vec![b0, b1, b2, 0xc1]);
+                        let a = RecordHeader::is_record_of_type_chunk(&r).ok();
+                        let b = RecordHeader::from_record(&r).ok().map(|h| h.kind == RecordKind::Chunk);
+                        if a != b {
+                            out.oracle_fail(
+                                "chunk-test-errs-exactly-when-header-decoder-errs",
+                                &format!("ischunk {}", hex(&[b0, b1, b2, 0xc1])),
+                                &format!("is_record_of_type_chunk = {a:?} but from_record gives {b:?}"),
+                            );
+                            break 'outer;
+                        }
+                    }
+                }
+            }
+        }
         "chunk" => {
             if res != "recomputed" {
                 out.oracle_fail("chunk-address-recomputed", input, &format!("decoded chunk address: {res}"));
@@ -593,6 +676,39 @@ fn oracle(line: &str, input: &str, res: &str, out: &mut Out, tys: &[Ty]) {
         }
         _ => {}
     }
+}
+
+/// every MessagePack integer spelling of `t` (all widths that can hold it, unsigned and signed), plus a negative one
+fn int_spellings(t: u64) -> Vec<Vec<u8>> {
+    let mut v: Vec<Vec<u8>> = vec![];
+    if t < 128 {
+        v.push(vec![t as u8]);
+    }
+    if t < 256 {
+        v.push(vec![0xcc, t as u8]);
+    }
+    if t < 65536 {
+        v.push([vec![0xcd], (t as u16).to_be_bytes().to_vec()].concat());
+    }
+    if t < 1 << 32 {
+        v.push([vec![0xce], (t as u32).to_be_bytes().to_vec()].concat());
+    }
+    v.push([vec![0xcf], t.to_be_bytes().to_vec()].concat());
+    if t < 128 {
+        v.push(vec![0xd0, t as u8]);
+    }
+    if t < 32768 {
+        v.push([vec![0xd1], (t as u16).to_be_bytes().to_vec()].concat());
+    }
+    if t < 1 << 31 {
+        v.push([vec![0xd2], (t as u32).to_be_bytes().to_vec()].concat());
+    }
+    if t < 1 << 63 {
+        v.push([vec![0xd3], t.to_be_bytes().to_vec()].concat());
+    }
+    v.push(vec![0xd0, 0x80 | (t as u8)]); // negative i8
+    v.push(vec![0xe0 | (t as u8 & 0x1f)]); // negative fixint
+    v
 }
 
 fn mutate(rng: &mut Rng, b: &[u8]) -> Vec<u8> {
@@ -660,6 +776,25 @@ fn main() {
         }
         for h in ["-", "91", "9101", "910100", "91cc05", "91cc08", "91d007", "91d0ff", "91cd00", "810003", "c40106", "c40206", "92010203", "9108ff", "91ccff", "91c000"] {
             v.push(format!("hdrdec {h}"));
+            v.push(format!("ischunk {h}"));
+            v.push(format!("hdrtry {h}"));
+        }
+        for b0 in ["91", "81", "c4", "00", "92"] {
+            v.push(format!("ischunksweep {b0}"));
+        }
+        v.push("hdrtrysweep2".into());
+        // the tag in every integer width (unsigned, non-negative and negative signed), every 1-array / 1-bin spelling
+        for t in [0u64, 1, 7, 8, 127, 128, 255, 256, 65535, 65536, 4294967295, 4294967296, u64::MAX] {
+            for w in int_spellings(t) {
+                for pre in [vec![0x91u8], vec![0xdc, 0, 1], vec![0xdd, 0, 0, 0, 1]] {
+                    let mut b = pre.clone();
+                    b.extend_from_slice(&w);
+                    v.push(format!("hdrtry {}", hex(&b)));
+                }
+            }
+        }
+        for h in ["c4010100", "c5000105", "c600000001", "c60000000107ff", "c5000205", "dc000201", "dc0000", "dd0000000201", "91d1ffff", "91d3ffffffffffffffff", "91ca00000000", "91c0", "91a0", "9190", "9201", "90"] {
+            v.push(format!("hdrtry {h}"));
         }
         v.push(format!("chunk {} {}", hex(&[0u8; 32]), hex(b"hello")));
         // a failed encode must leave no trace in the next successful one on the same thread
@@ -726,6 +861,37 @@ fn main() {
                     b.truncate(n.max(1));
                     b.extend_from_slice(&rng.bytes(rng.clone().below(3) as usize));
                     v.push(format!("hdrdec {}", hex(&b)));
+                    v.push(format!("ischunk {}", hex(&b)));
+                    if !(b.len() > 3 && (b[0] & 0xf0 == 0x80 || b[0] == 0xde || b[0] == 0xdf)) {
+                        v.push(format!("hdrtry {}", hex(&b)));
+                    }
+                    if rng.chance(1, 3) {
+                        // a whole record (valid kind, unknown kind, damaged) through the chunk test
+                        let t = gen_tree(&mut rng, "Chunk", true);
+                        let ty = tys.iter().find(|x| x.name == "Chunk").unwrap();
+                        let mut bytes = (ty.rec)(&t, *rng.pick(&KINDS)).unwrap_or_default();
+                        match rng.below(4) {
+                            0 => bytes[1] = *rng.pick(&[8u8, 9, 0x7f, 0x80, 0xcc, 0xd0, 0xff]),
+                            1 => bytes[0] = rng.next() as u8,
+                            2 => bytes.truncate(rng.below(4) as usize),
+                            _ => {}
+                        }
+                        v.push(format!("ischunk {}", hex(&bytes)));
+                    }
+                    if rng.chance(1, 3) {
+                        let t = gen_u64(&mut rng);
+                        let w = int_spellings(t);
+                        let mut b = rng.pick(&[vec![0x91u8], vec![0xdc, 0, 1], vec![0xdd, 0, 0, 0, 1]]).clone();
+                        let pick: &Vec<u8> = rng.pick(&w[..]);
+                        b.extend_from_slice(pick);
+                        if rng.chance(1, 4) {
+                            b.pop();
+                        }
+                        v.push(format!("hdrtry {}", hex(&b)));
+                    }
+                    if rng.chance(1, 8) {
+                        v.push(format!("ischunksweep {:02x}", rng.below(256)));
+                    }
                 }
                 18 => {
                     let n = gen_len(&mut rng).min(3000);
